@@ -571,8 +571,9 @@ def _compose_elements(
 
 def _keyword_filter(type_: Type) -> Callable[[Dict[str, Any]], Dict[str, Any]]:
     """Create a filter to pull out only relevant keywords for a given type."""
-    params = inspect.signature(type_.__init__).parameters.values()
-    args = {param.name for param in params}
+    params = list(inspect.signature(type_.__init__).parameters.values())
+    # The first parameter is the instance: never a keyword of the schema.
+    args = {param.name for param in params[1:]}
 
     def _filter(schema: Dict[str, Any]) -> Dict[str, Any]:
         return {key: value for key, value in schema.items() if key in args}
